@@ -128,11 +128,12 @@ impl SignModel {
                 None
             }
             Message::DataChunksSent(n) => {
+                // Unaddressed: only a sign that is receiving takes notice (property C14).
                 let ok = u32::from(n.0) == self.chunks;
                 match self.state {
                     State::ConfigInProgress => self.state = if ok { State::ConfigReceived } else { State::ConfigFailed },
                     State::PixelsInProgress => self.state = if ok { State::PixelsReceived } else { State::PixelsFailed },
-                    _ => {}
+                    _ => return None,
                 }
                 self.close_page();
                 self.chunks = 0;
